@@ -54,7 +54,7 @@ func run(c *lib.Ctx) error {
 	var mMu sync.Mutex
 	model := func(name string, cfg []byte, workers int) {
 		defer wg.Done()
-		r, err := c.TLC(name, lib.TLCRun{Dir: dir, Module: "MCStrRe", Workers: workers, Timeout: 12 * time.Minute, Files: map[string][]byte{"MCStrRe.cfg": cfg}})
+		r, err := c.TLC(name, lib.TLCRun{Dir: dir, Module: "MCStrRe", Workers: workers, Timeout: 25 * time.Minute, Files: map[string][]byte{"MCStrRe.cfg": cfg}})
 		mMu.Lock()
 		defer mMu.Unlock()
 		if err != nil {
@@ -75,14 +75,14 @@ func run(c *lib.Ctx) error {
 	var jobs []genJob
 	if c.Quick() {
 		jobs = []genJob{
-			{"pair", "pair", 4, 2, "quick", "{9, 2}"},
-			{"pair-max", "pair", 2, 1, "quick", "{0, 1, 3}"},
+			{"pair", "pair", 4, 2, "quick", "{9}"},
+			{"pair-max", "pair", 3, 1, "quick", "{0, 1, 2, 3}"},
 			{"unary", "unary", 3, 0, "quick", "{9}"},
 		}
 	} else {
 		jobs = []genJob{
 			{"pair-wide", "pair", 4, 2, "thorough", "{9, 0, 2}"},
-			{"pair-long", "pair", 5, 2, "quick", "{9, 1, 3}"},
+			{"pair-long", "pair", 5, 2, "quick", "{9, 3}"},
 			{"unary", "unary", 4, 0, "quick", "{9}"},
 		}
 	}
@@ -109,12 +109,13 @@ func run(c *lib.Ctx) error {
 	}
 	c.Set("exhaustive", true)
 	c.Set("generated_cases", g.nCases)
+	c.Set("case_images_left_to_judge", map[string]any{"cases": g.nLeft, "judged": len(g.caseLeft)})
 
 	// ---- V: str builtins on random texts (+ the generated texts whose case images are not unique)
-	sc := randomStrCases(c, pool, c.Pick(4000, 40000))
+	sc := randomStrCases(c, pool, c.Pick(2500, 20000))
 	sc = append(sc, g.caseLeft...)
 	c.Logf("judging %d recorded str cases (%d from the generator with alternative case images)", len(sc), len(g.caseLeft))
-	bad, err := lib.Judge(c, "JudgeStr", dir, "JudgeStr", sc, c.Pick(3, 6), 10*time.Minute)
+	bad, err := lib.Judge(c, "JudgeStr", dir, "JudgeStr", sc, c.Pick(3, 6), 25*time.Minute)
 	if err != nil {
 		wg.Wait()
 		return err
@@ -129,7 +130,7 @@ func run(c *lib.Ctx) error {
 	// ---- V: re builtins, mutual consistency
 	rc := reCases(c, pool)
 	c.Logf("judging %d recorded re cases", len(rc))
-	bad, err = lib.Judge(c, "JudgeRe", dir, "JudgeRe", rc, c.Pick(4, 6), 10*time.Minute)
+	bad, err = lib.Judge(c, "JudgeRe", dir, "JudgeRe", rc, c.Pick(4, 6), 25*time.Minute)
 	if err != nil {
 		wg.Wait()
 		return err
